@@ -31,6 +31,9 @@ def cases(ctx):
         if len(ws) > 25:
             ws = ws[:5] + rng.sample(ws[5:], 20)
         yield {'kind': 'cnf', 'G': G, 'words': ws}
+    for i in range(40 if not thorough else 400):
+        G = gen.unit_chain_cfg(rng)
+        yield {'kind': 'any', 'G': G, 'words': [w for w in gen.all_words(G['Sigma'], 3)][:20]}
     for i in range(300 if not thorough else 4000):
         G = gen.random_cfg(rng, maxlen=3, multichar=rng.random() < 0.3)
         Sig = sorted(G['Sigma']) or ['a']
@@ -105,6 +108,15 @@ def judge(ctx, c, answers):
             ctx.count('cyk-table')
     if enc.cfg_to_spec(G) != before:
         ctx.violation('argument-mutated', {'case': c})
+    # history: a grammar with the SAME rule list but another start variable must be judged on its own
+    for A in [v for v in G0['V'] if v != G0['S']][:2]:
+        G2spec = dict(G0, S=A)
+        G2 = enc.build_cfg(G2spec)
+        for w in c['words'][:6]:
+            got = call(CA.cfg_accepts_word, G2, w, limit=30)
+            exp = oracles.cfg_accepts(rules, A, w)
+            if got != {'ok': exp}:
+                ctx.violation('cfg-membership-after-related-query', {'case': dict(c, G=G2spec, words=[w]), 'first_grammar': G0, 'impl': got, 'expected': exp})
     ctx.record('c07/' + core.digest(c), res)
     if c['kind'] == 'cnf':
         nt = any(len(r) == 2 for _, r in rules) and any(len(w) >= 2 for w in c['words'])
